@@ -102,7 +102,22 @@ def cascade(draw):
 def strategy(tier, flags):
     rnd = gen_cfg.cfg_desc(var_pools=["std", "long"], term_pools=["ab", "abc", "tok"], max_prods=7, max_body=3,
                            allow_text=False).map(reduce_useful)
-    return st.one_of(ll1_like(), rnd, cascade(), ll1_like()).filter(lambda d: len(d["prods"]) > 0).map(lambda d: {"g": d})
+    base = st.one_of(ll1_like(), rnd, cascade(), ll1_like()).filter(lambda d: len(d["prods"]) > 0)
+    # one case in eight: a terminal whose value is "$", the spelling of the parser's own end-of-input marker
+    return st.tuples(base, st.sampled_from([0, 0, 0, 0, 1, 0, 0, 0])).map(
+        lambda t: {"g": rename_terminal(t[0], "$") if t[1] else t[0]})
+
+
+def rename_terminal(d, new):
+    """the first terminal (by repr) of the description renamed to `new` throughout"""
+    terms = sorted({repr(x): x for _h, b in d["prods"] for k, x in b if k == "T"}.items())
+    if not terms:
+        return d
+    old = terms[0][1]
+    d2 = dict(d)
+    d2["prods"] = [[h, [[k, (new if k == "T" and x == old else x)] for k, x in b]] for h, b in d["prods"]]
+    d2["tpool"] = "dollar"
+    return d2
 
 
 EXHAUSTIVE_SCOPE = {
@@ -150,7 +165,7 @@ def check_parser(R, d, parser, failures, suffix):
     from pyformlang.cfg import Variable, Terminal, Epsilon
     from pyformlang.cfg.cfg import NotParsableException
     first = R.first_sets()
-    follow = R.follow_sets(end="$")
+    follow = R.follow_sets(end=ref_cfg.END)
     ll1 = R.is_ll1()
 
     def conv(s):
@@ -175,7 +190,7 @@ def check_parser(R, d, parser, failures, suffix):
         fo = parser.get_follow_set()
         for v in sorted(R.vars, key=repr):
             raw = fo.get(Variable(v), set())
-            got = {("$" if x == "$" and not isinstance(x, Terminal) else (x.value if isinstance(x, Terminal) else ("?", repr(x))))
+            got = {(ref_cfg.END if not isinstance(x, Terminal) and x == "$" else (x.value if isinstance(x, Terminal) else ("?", repr(x))))
                    for x in raw}
             if got != follow[v]:
                 failures.append(fail("get_follow_set" + suffix, "differs", {"var": v, "got": sorted(got, key=repr),
@@ -219,6 +234,8 @@ def check_parser(R, d, parser, failures, suffix):
                 failures.append(fail(sub, "invalid_tree", {"word": w, "problems": pb[:3]}))
                 break
     labels = ["ll1" if ll1 else "not_ll1", "src:" + d.get("vpool", "?")]
+    if d.get("tpool") == "dollar":
+        labels.append("terminal_named_dollar")
     nl = R.nullable()
     if nl:
         labels.append("nullable_variable")
